@@ -101,8 +101,24 @@ def rule_zip(ctx):
                 for u in fn.uses().get(d, []):
                     if u["kind"] == "arg" and u["term"].get("callee_name") == "branch":
                         inst_q = True
-            if guarded or same or inst_q:
-                res.inst(ikey, t["sp"]["file"], t["sp"]["line"], "ok", "length guard" if guarded else ("same source" if same else "is_instance(..)? precedes"))
+            caller_guard = False
+            if not (guarded or same or inst_q) and "{closure" not in k:
+                # a helper that pairs up two lists its callers have compared: every call of it is preceded by the comparison
+                sites = []
+                for k2, f2 in zone_fns(fx):
+                    fn2 = None
+                    for b2, t2 in Fn(f2).calls():
+                        if k in (t2.get("resolved_key"), t2.get("callee_key")):
+                            fn2 = fn2 or Fn(f2)
+                            g2 = _len_guards(fn2)
+                            ok2 = any(fn2.dominates(g, b2) and g != b2 for g, _ in g2)
+                            for gb, gt in fn2.calls():
+                                if gt.get("callee_name") in ("is_instance", "check_template", "check") and "types::" in (gt.get("callee_key") or "") and fn2.dominates(gb, b2) and gb != b2:
+                                    ok2 = True
+                            sites.append(ok2)
+                caller_guard = bool(sites) and all(sites)
+            if guarded or same or inst_q or caller_guard:
+                res.inst(ikey, t["sp"]["file"], t["sp"]["line"], "ok", "length guard" if guarded else ("same source" if same else ("is_instance(..)? precedes" if inst_q else "every caller compares the lengths first")))
             else:
                 res.inst(ikey, t["sp"]["file"], t["sp"]["line"], "violation")
                 res.violate(ikey, "zip of two sequences whose lengths are not compared first: a wrong number of arguments/binders/type "
@@ -125,8 +141,15 @@ def rule_dup(ctx):
     res = RuleResult("R-DUP", "check-then-insert: every insertion of a declaration into the symbol table (BuildSymbolTable::build) is "
                      "dominated by contains_key on the same map with the same key whose true branch returns Err(DefinedMultipleTimes)")
     n = 0
-    for k, f in zone_fns(fx):
-        if f.get("impl_trait") != "fun::typing::symbol_table::BuildSymbolTable" or f.get("name") != "build":
+    # the functions that build the symbol table: everything reachable from build_symbol_table inside the front end
+    from .. import callgraph
+    cg = callgraph.get(ctx)
+    entry = "fun::typing::symbol_table::build_symbol_table"
+    fx.fn(entry)
+    zone = set(cg.reachable([entry], crates={"fun"}))
+    for k in sorted(zone):
+        f = fx.fns[k]
+        if "{promoted" in k:
             continue
         fn = Fn(f)
         flow = Flow(fn)
@@ -138,7 +161,7 @@ def rule_dup(ctx):
             mfield = _field_of(fn, flow, t["args"][0])
             ok = False
             for cb, ct in cks:
-                if _field_of(fn, flow, ct["args"][0]) == mfield and fn.dominates(cb, bi) and cb != bi:
+                if mfield is not None and _field_of(fn, flow, ct["args"][0]) == mfield and fn.dominates(cb, bi) and cb != bi:
                     # the result of contains_key is branched on and the true branch returns Err
                     d = ct["dest"]["l"]
                     for u in fn.uses().get(d, []):
@@ -151,10 +174,16 @@ def rule_dup(ctx):
                 res.inst(ikey, t["sp"]["file"], t["sp"]["line"], "ok", "guarded insert into %s" % (mfield,))
             else:
                 res.inst(ikey, t["sp"]["file"], t["sp"]["line"], "violation")
-                res.violate(ikey, "insert into symbol_table.%s without a preceding contains_key check that returns Err: a duplicate declaration "
-                            "silently replaces the first one" % (mfield,), t["sp"]["file"], t["sp"]["line"])
-    res.require_floor(5)
+                res.violate(ikey, "insert into the symbol table (%s) without a preceding contains_key check on the same map that returns Err: a duplicate "
+                            "declaration silently replaces the first one" % (mfield,), t["sp"]["file"], t["sp"]["line"])
+    if n < 1:
+        raise AnalysisError("R-DUP: no insertion into a map found in the functions reachable from build_symbol_table")
+    res.notes.append("insertions examined: %d (5 on the pinned tree); functions reachable from build_symbol_table: %d" % (n, len(zone)))
     return res
+
+
+def _builds_err_reach(fn, b, depth=0):
+    return _builds_err(fn, b)
 
 
 def _field_of(fn, flow, operand):
@@ -165,6 +194,8 @@ def _field_of(fn, flow, operand):
     for o in flow.origins(r, tuple(place_fields(operand["pl"]))):
         if o[0] == "arg" and o[2]:
             outs.add(o[2][-1])
+        elif o[0] == "arg":
+            outs.add("<parameter %d>" % o[1])       # a helper that receives the map itself
     return "/".join(sorted(outs)) or None
 
 
@@ -321,7 +352,23 @@ def rule_clause_exits(ctx):
     for key, wants in specs:
         fn = Fn(fx.fn(key))
         built = set()
-        keys = [key] + [k for k, g in fx.fns.items() if (g.get("parent") or "").startswith(key)]
+        # the function, its closures, and the helpers of the front end it calls (two levels; diagnostics may be built by
+        # constructor helpers of the error type or in an extracted part of the check)
+        keys, todo = [], [(key, 0)]
+        while todo:
+            k0, dpt = todo.pop()
+            if k0 in keys:
+                continue
+            keys.append(k0)
+            for k2, g in fx.fns.items():
+                if (g.get("parent") or "").startswith(k0) and k2 not in keys:
+                    todo.append((k2, dpt))
+            if dpt < 2:
+                for _, t in Fn(fx.fns[k0]).calls():
+                    k2 = t.get("resolved_key") or (t.get("callee_key") if not t.get("callee_trait") else None)
+                    if k2 in fx.fns and fx.fns[k2]["crate"] == "fun" and k2 not in keys and (fx.fns[k2].get("impl_trait") or "") != "fun::typing::check::Check" \
+                            and "{promoted" not in k2:
+                        todo.append((k2, dpt + 1))
         for kk in keys:
             ff = Fn(fx.fns[kk])
             for bi, si, s in ff.stmts():
